@@ -207,6 +207,37 @@ def binaryRightAssign (a b : Cont R) (fxy dfx dfy : R → R → R) (w : World R)
 
 end Basic
 
+/-! ### user closures that panic
+
+`unary`, `binary`, their assigning forms, `map` and `map_mut` call the user's functions once per
+element, in iteration order.  When a call panics the operation is abandoned: the tape keeps what
+the earlier elements appended (the borrow of the tape is released by unwinding), no container is
+produced, the operands are untouched — except for `map_mut`, which has already overwritten the
+earlier elements in place.  `k` is the number of elements processed before the panic. -/
+
+section Panicking
+variable [Zero R]
+
+/-- `unary` / `unary_assign` whose `fx` panics at element `k`: constants touch no tape. -/
+def unaryPanicAt (c : Cont R) (fx dfx : R → R) (k : Nat) (w : World R) : World R :=
+  match c.history with
+  | none => w
+  | some h => w.update h (Tape.batchUnary fx dfx (c.elems.take k) (w h)).2
+
+/-- `binary` / `binary_left_assign` / `binary_right_assign` whose `fxy` panics at pair `k`; the
+    shape test and the same-tape assertion come first and append nothing. -/
+def binaryPanicAt (a b : Cont R) (fxy dfx dfy : R → R → R) (k : Nat) (w : World R) : World R :=
+  if a.shape ≠ b.shape then w else
+  match a.history, b.history with
+  | none, none => w
+  | some h, none => w.update h (Tape.batchX fxy dfx ((a.elems.zip b.elems).take k) (w h)).2
+  | none, some h => w.update h (Tape.batchY fxy dfy ((a.elems.zip b.elems).take k) (w h)).2
+  | some h, some h' =>
+    if h ≠ h' then w
+    else w.update h (Tape.batchBoth fxy dfx dfy ((a.elems.zip b.elems).take k) (w h)).2
+
+end Panicking
+
 /-! ### Operators (container_operations.rs, swapped.rs) -/
 
 section Arith
@@ -635,6 +666,18 @@ def mapMut (c : Cont R) (f : Nat → Rec R → World R → Rec R × World R) (w 
       match lastDifferent r.history rest none with
       | none => (w1, .ok ({ c with elems := elems, history := r.history }, none))
       | some later => (w1, .ok ({ c with elems := elems }, some (r.history, later)))
+
+/-- `map` whose function panics at element `k`: the tapes after the first `k` calls. -/
+def mapPanicAt (c : Cont R) (f : Nat → Rec R → World R → Rec R × World R) (k : Nat) (w : World R) :
+    World R :=
+  (mapRecsIdx f 0 (c.toRecs.take k) w).2
+
+/-- `map_mut` whose function panics at element `k`: the first `k` elements have been overwritten
+    in place, the container keeps its tape field. -/
+def mapMutPanicAt (c : Cont R) (f : Nat → Rec R → World R → Rec R × World R) (k : Nat) (w : World R) :
+    Cont R × World R :=
+  let (recs, w1) := mapRecsIdx f 0 (c.toRecs.take k) w
+  ({ c with elems := (recs.map fun r => (r.number, r.index)) ++ c.elems.drop k }, w1)
 
 end Cont
 
